@@ -363,8 +363,14 @@ def case_volume(ctx, W, outs, nt):
     if kind == "default":
         depths = np.arange(0.5, 3.0, 0.5, dtype=np.float32)
     else:
-        depths = np.array(sorted(rng.sample([0.0, 0.25, 0.5, 1.0, 1.75, 2.5, 3.0], rng.randint(1, 4))),
-                          dtype=np.float32 if kind == "f32" else np.float64)
+        dl = rng.sample([0.0, 0.25, 0.5, 1.0, 1.75, 2.5, 3.0], rng.randint(1, 4))
+        order = rng.choice(["ascending", "ascending", "descending", "unordered"])
+        if order == "ascending":
+            dl = sorted(dl)
+        elif order == "descending":
+            dl = sorted(dl, reverse=True)
+        ctx.count("volume-depths:" + order)
+        depths = np.array(dl, dtype=np.float32 if kind == "f32" else np.float64)
     kernel = abs(res[0]) >= 1000 or rng.random() < 0.4   # large cell areas would leave float32's exact range
     if kernel:
         area_np = np.array([rng.randint(0, 9) for _ in range(n)], dtype=rng.choice([np.float32, np.float64]))
